@@ -307,6 +307,10 @@ class RuleGen:
         out.append(('label', r.choice(['"Amex"', '"net"', clean('S', 1)])))
         if r.random() < .1:
             out.pop(r.randrange(3))
+        if r.random() < .2:
+            # a user variable spelled like a built-in name takes precedence over it in every rule of the file
+            out.append(r.choice([('amount', 'abs(amount)'), ('month', 'month % 6'), ('source', '"Chase"'), ('day', 'weekday'),
+                                 ('year', 'year - 1'), ('description', 'lowercase(description)')]))
         r.shuffle(out)
         if r.random() < .3:
             out = [(n.upper() if r.random() < .3 else n, e) for n, e in out]
@@ -355,6 +359,9 @@ class RuleGen:
             rule.fields = [('who', 'w')]
         elif r.random() < .1:
             rule.fields = [('memo2', 'field.memo'), ('amt2', 'amount * 2')][:r.randint(1, 2)]
+        if not rule.lets and r.random() < .08:
+            # a let: binding spelled like a built-in name shadows it within the rule
+            rule.lets = [r.choice([('amount', 'abs(amount) * 2'), ('day', 'weekday'), ('Month', '13 - month'), ('source', 'uppercase(source)')])]
         return rule
 
     def rule_file(self, nrules=None, transforms=None):
